@@ -77,12 +77,16 @@ def probes():
         add({"op": "constraint", "c": ("conditionSchedule", t, (">", ("tstart", "A"), 3))})
         for u in ("A", "B"):
             add({"op": "constraint", "c": ("dependency", t, u)})
-    for ts in (["A"], ["B"], ["A", "B"], []):
-        for n in (-1, 0, 1, 2):
-            add({"op": "constraint", "c": ("forceScheduleN", ts, n, "exact")})
-    for cs in ([0], [1], [0, 1], []):
-        for n in (-1, 0, 1, 2):
-            add({"op": "constraint", "c": ("forceApplyN", cs, n, "min")})
+    # (every kind and every count around the list length: a rule that is trivially true, e.g. "at most n of m <= n",
+    #  must still reject a mandatory member)
+    for ts in (["A"], ["B"], ["A", "B"], ["B", "A"], []):
+        for n in (-1, 0, 1, 2, 3):
+            for kd in ("exact", "min", "max"):
+                add({"op": "constraint", "c": ("forceScheduleN", ts, n, kd)})
+    for cs in ([0], [1], [0, 1], [1, 0], []):
+        for n in (-1, 0, 1, 2, 3):
+            for kd in ("exact", "min", "max"):
+                add({"op": "constraint", "c": ("forceApplyN", cs, n, kd)})
     # resource constraints on assigned / unassigned / cumulative resources
     for r in ("W1", "W2", "W3", "CW", "CU"):
         add({"op": "constraint", "c": ("unavailable", r, [(1, 3)])})
